@@ -16,7 +16,7 @@ from typing import Any, Dict, List, Tuple
 from dsmc.commitworld import TableWorld, outcome_of
 from dsmc.env import ENV
 from dsmc.reader import canon_row
-from dsmc.report import Report, pmap
+from dsmc.report import HarnessError, Report, pmap
 from dsmc.sched import Execution, Explorer
 from dsmc.tables import row, schema
 
@@ -56,6 +56,7 @@ class C06World(TableWorld):
     def reset(self) -> None:
         super().reset()
         self.txs, self.tx_files = [], []
+        self.gc_open, self.gc_runs = 0, []
         n_old = {"commit_old": 1, "rollback_old": 1, "commit_old+committer": 1, "commit_old+fresh": 1, "two_old": 2}.get(self.variant, 0)
         for k in range(n_old):
             tx = self.handle(1 + k).new_transaction().begin()
@@ -65,16 +66,27 @@ class C06World(TableWorld):
                 self._age(f)
             self.tx_files.append(tx._written_files[0])
 
+    def _collect(self, handle):
+        """One collection run; its virtual start/end instants are recorded: the statement only speaks about runs
+        shorter than the grace period."""
+        t0 = ENV.clock
+        self.gc_open += 1
+        try:
+            return handle.garbage_collect(GRACE_MS)
+        finally:
+            self.gc_open -= 1
+            self.gc_runs.append((t0, ENV.clock))
+
     def actors(self):
         g = self.handle(0)
         if self.variant == "append_fresh_2collectors":
             g2 = self.handle(2)
-            out = [("G", lambda: g.garbage_collect(GRACE_MS)), ("H", lambda: g2.garbage_collect(GRACE_MS))]
+            out = [("G", lambda: self._collect(g)), ("H", lambda: self._collect(g2))]
         elif self.variant == "append_fresh_2gc":
             # two collection runs during one transaction (the second one hours later, see the pause deviation)
-            out = [("G", lambda: (g.garbage_collect(GRACE_MS), g.garbage_collect(GRACE_MS)))]
+            out = [("G", lambda: (self._collect(g), self._collect(g)))]
         else:
-            out = [("G", lambda: g.garbage_collect(GRACE_MS))]
+            out = [("G", lambda: self._collect(g))]
         v = self.variant
         if v in ("commit_old", "commit_old+committer", "commit_old+fresh", "two_old"):
             out.append(("T", self.txs[0].commit))
@@ -98,7 +110,9 @@ class C06World(TableWorld):
                 continue
             if a.frozen:
                 opts.append(("resume", "T"))
-            elif a.state != "done" and ex.jumps < self.max_pauses and a.steps > 0:
+            elif a.state != "done" and ex.jumps < self.max_pauses and a.steps > 0 and self.gc_open == 0:
+                # never while a collection run is in progress: that run would last longer than the grace
+                # period, which the statement excludes
                 opts.append(("stall+2h", "T"))
         return opts
 
@@ -115,6 +129,8 @@ class C06World(TableWorld):
         acts = {a.name: a for a in ex.actors}
         outcome = {n: outcome_of(a) for n, a in acts.items() if "." not in n}
         problems: List[str] = []
+        if any((t1 - t0) * 1000 >= GRACE_MS for t0, t1 in self.gc_runs):
+            raise HarnessError(f"a collection run lasted longer than the grace period: {self.gc_runs}")
         if ex.deadlock:
             problems.append("deadlock")
         st = self.state()
